@@ -264,6 +264,17 @@ def enum_transitions(tier):
                 yield {"kind": "payload-transition", "net": "testnet", "msgs": [m, _VERACK], "chunks": [24, a, b], "tail": 0}
 
 
+def enum_large_frames(tier):
+    """Every command of the table with payloads at the top of the stated range (and the 30003 bytes of an addr message
+    with the maximum 1000 entries), alone and followed by a second message; few, large chunks."""
+    sizes = [30001, 30002, 30003, 65535, 65536, 70000]
+    for i, cmd in enumerate(ref.COMMANDS):
+        for n in sizes if tier != "quick" else [sizes[(i + j) % len(sizes)] for j in (0, 2, 5)] + ([30003] if cmd == "addr" else []):
+            m = {"cmd": cmd, "fill": hx(bytes((11 * k + i) & 0xFF for k in range(29))), "size": n}
+            yield {"kind": "large-frame", "net": NETS[i % len(NETS)], "msgs": [m], "chunks": [24, 4096, 1, 60000], "tail": 0}
+            yield {"kind": "large-frame", "net": NETS[(i + 1) % len(NETS)], "msgs": [m, _PING8], "chunks": [100000], "tail": 0}
+
+
 def _compositions(net, msgs, maxcuts, kind):
     total = sum(msg_len(m) for m in msgs)
     for k in range(maxcuts + 1):
@@ -918,6 +929,7 @@ def targets(tier):
             exhaustive=True,
             required=["nt:cut-in-header", "nt:cut-in-payload", "nt:back-to-back-2", "nt:back-to-back-3", "nt:chunk-spans-boundary", "no-cut"],
         ),
+        Target("large-frames", check_frag, enumerate_=enum_large_frames, exhaustive=True, required=["payload>1000", "nt:back-to-back-2"]),
         Target(
             "fragmentation",
             check_frag,
